@@ -259,8 +259,10 @@ def run(ctx, chk):
             coff = prog.field_offset("cbor_indefinite_string_data", "chunks")
             if steps[-1][1] == coff:
                 return True, "chunks table of an indefinite string"
-        if steps in ((), (("off", 0),)) and f.name.startswith("_cbor_stack"):
-            return True, "top record of the decoding stack"
+        stack_unit_ = prog.funcs["_cbor_stack_pop"].unit if "_cbor_stack_pop" in prog.funcs else None
+        if f.unit == stack_unit_ and root[0] == "arg" and f.params[root[1]]["type"] == "%struct._cbor_stack*" and \
+                (steps == () or (len(steps) == 1 and steps[0][0] == "off")):
+            return True, "a record held in a field of the decoding stack, inside the stack module"
         return False, "load from unrecognised location %s%s" % (root, list(steps))
 
     def classify(f, v, depth=0):
@@ -323,6 +325,9 @@ def run(ctx, chk):
                               "that frees what a field holds would release a block its owner - or the client that attached it - "
                               "releases again")
     RELEASERS = {"cbor_decref", "_cbor_stack_pop"} | (O_.static_callees(prog, eff, "cbor_decref") if "cbor_decref" in prog.funcs else set())
+    if "_cbor_stack_pop" in prog.funcs:
+        # the stack module owns its records: any of its functions may release one
+        RELEASERS |= {g_.name for g_ in prog.lib_funcs() if g_.unit == prog.funcs["_cbor_stack_pop"].unit}
 
     def field_origins(f, v, depth=0, seen=frozenset()):
         """functions in which the freed pointer is read out of a field (a load that is not a plain local variable)"""
